@@ -883,12 +883,42 @@ def gen_numeric_doc(rng):
     """hand-made templates exercising every clause with extreme magnitudes"""
     E = lambda: rng.choice(EXTREMES)
     T = lambda: rng.choice(TS_EXTREMES)
-    k = rng.below(20)
+    k = rng.below(23)
     FS = lambda: rng.choice(['-4', '0', '1e30', '3e38', '12', '-1e30', '1e-30'])
     DU = lambda: rng.choice(EXTREMES + ['2em', '1ex', '3e38in', '-1em', '2e38em', '3e38mm', '1em'])
     if k == 0:
         return ('<svg %s width="100" height="100"><g transform="%s"><g transform="%s"><rect width="%s" height="10" stroke="red" '
                 'stroke-width="%s" stroke-miterlimit="%s" stroke-dasharray="%s %s"/></g></g></svg>' % (NS, T(), T(), E(), E(), E(), E(), E()))
+    if k in (20, 21, 22):
+        # `inherit` on every text-related (and a few paint) properties, as attribute / style / CSS rule, on text and tspan:
+        # nothing in the tree or in the written form (with and without preserve_text) may still say `inherit`
+        PROPS = ['font-family', 'font-size', 'font-style', 'font-weight', 'font-stretch', 'font-variant', 'letter-spacing', 'word-spacing',
+                 'text-anchor', 'text-decoration', 'writing-mode', 'dominant-baseline', 'alignment-baseline', 'baseline-shift',
+                 'text-rendering', 'kerning', 'font-kerning', 'direction', 'fill', 'stroke', 'stroke-width', 'stroke-dasharray', 'opacity',
+                 'visibility', 'fill-opacity', 'stroke-linejoin', 'color', 'display']
+        css = []
+
+        def put(n):
+            a = ''
+            for p_ in rng.sample(PROPS, n):
+                how = rng.below(3)
+                if how == 0:
+                    a += ' %s="inherit"' % p_
+                elif how == 1:
+                    a += ' style="%s:inherit"' % p_ if 'style=' not in a else ''
+                else:
+                    cls = 'c%d' % len(css)
+                    if 'class=' not in a:
+                        css.append('.%s { %s: inherit }' % (cls, p_))
+                        a += ' class="%s"' % cls
+            return a
+        t1, t2, t3 = put(1 + rng.below(3)), put(1 + rng.below(3)), put(1 + rng.below(2))
+        return ('<svg %s width="200" height="100" font-family="Noto Sans" font-size="14"><style>%s</style>'
+                '<g font-family="Noto Serif" font-size="18" font-style="italic" font-weight="700" font-stretch="condensed" font-variant="small-caps" '
+                'letter-spacing="2" word-spacing="3" text-anchor="middle" text-decoration="underline" dominant-baseline="middle" '
+                'fill="#204080" stroke="#802040" stroke-width="0.5" stroke-dasharray="3 1" color="#336699" opacity="0.8">'
+                '<text x="100" y="40"%s>ab \u00e9<tspan%s>cd</tspan> ef</text><rect x="10" y="60" width="50" height="20"%s/></g></svg>'
+                % (NS, ' '.join(css), t1, t2, t3))
     if k == 17:
         # mask / clip-path link chains of depth 1..5 with objectBoundingBox paint in the content of EVERY level (single reference each)
         depth = 1 + rng.below(5)
@@ -995,6 +1025,28 @@ def gen_numeric_doc(rng):
 # ------------------------------------------------------------------------------------------------
 # known classes
 # ------------------------------------------------------------------------------------------------
+KEYWORD_RE = re.compile(r"\b(inherit|currentColor|context-fill|context-stroke)\b|^[-+]?[\d.]+(?:e[-+]?\d+)?(%|em|ex)$")
+
+
+def dump_keyword_scan(dump):
+    """string values of the tree (font families, enums, ...) that still carry an unresolved keyword / relative value;
+    element ids, result names and the text content are free text and not looked at"""
+    out = []
+    FREE = {'id', 'text', 'result', 'ref', 'face', 'font'}
+
+    def rec(o, key):
+        if isinstance(o, dict):
+            for k, v in o.items():
+                rec(v, k)
+        elif isinstance(o, list):
+            for v in o:
+                rec(v, key)
+        elif isinstance(o, str) and key not in FREE and KEYWORD_RE.search(o):
+            out.append((key, o[:60]))
+    rec(dump, None)
+    return out
+
+
 def nonfinite(v):
     return isinstance(v, str)
 
@@ -1179,6 +1231,9 @@ def judge_tree(ctx, label, doc_text, res, why, replay):
                                    "tree of %s is not valid: %s" % (label, text), dict(replay, codes=codes))
         else:
             ctx.violation("tree of %s is not valid: %s" % (label, text), dict(replay, codes=codes))
+    kw = dump_keyword_scan(dump)
+    if kw:
+        ctx.violation("tree of %s carries an unresolved keyword / relative value: %s" % (label, kw[:3]), dict(replay, problems=kw[:10]))
     if res.get('write_panic'):
         ctx.violation("Tree::to_string panicked on the tree of %s (%s): span offsets / values out of contract"
                       % (label, str(res['write_panic'])[:120]), dict(replay, write_panic=res['write_panic'], codes=codes))
